@@ -60,7 +60,8 @@ func genTree(c *core.Ctx, depth int, scalarsOnly bool) map[string]any {
 			m[k] = "" // an empty value is a value: it overrides (clears) what an earlier source supplied
 		default:
 			// command-line values may contain '=' themselves (DSNs, base64 padding)
-			m[k] = []string{"w", "w", "w", "q=", "a==b", "x?y=1&z="}[c.Rng.Intn(6)] + fmt.Sprint(c.Rng.Intn(100))
+			// ... and commas (a plain text with a comma is one value)
+			m[k] = []string{"w", "w", "w", "q=", "a==b", "x?y=1&z=", "c,d", "one, two and ", "k=v,l=w"}[c.Rng.Intn(9)] + fmt.Sprint(c.Rng.Intn(100))
 		}
 	}
 	return m
